@@ -7,6 +7,7 @@ package state
 
 import (
 	"fmt"
+	"strings"
 
 	"github.com/hashicorp/consul/acl"
 	"github.com/hashicorp/consul/agent/structs"
@@ -41,6 +42,19 @@ func (g *Graveyard) GetMaxIndexTxn(tx ReadTxn, prefix string, _ *acl.EnterpriseM
 	for stone := stones.Next(); stone != nil; stone = stones.Next() {
 		s := stone.(*Tombstone)
 		if s.Index > lindex {
+			lindex = s.Index
+		}
+	}
+
+	// A recursive delete leaves a single tombstone at the deleted prefix, so
+	// tombstones of ancestors of the given prefix cover it as well.
+	all, err := tx.Get(tableTombstones, indexID)
+	if err != nil {
+		return 0, fmt.Errorf("failed querying tombstones: %s", err)
+	}
+	for stone := all.Next(); stone != nil; stone = all.Next() {
+		s := stone.(*Tombstone)
+		if len(s.Key) < len(prefix) && strings.HasPrefix(prefix, s.Key) && s.Index > lindex {
 			lindex = s.Index
 		}
 	}
